@@ -23,11 +23,11 @@ pub(crate) mod vstub {
     }
 
     /// how often collector `i` was asked `register_callsite` for callsite `c`
-    pub(crate) static ASKED: [[AtomicUsize; 2]; 4] = [
+    vstatic!(pub(crate) ASKED: [[AtomicUsize; 2]; 4] = [
         [AtomicUsize::new(0), AtomicUsize::new(0)], [AtomicUsize::new(0), AtomicUsize::new(0)],
         [AtomicUsize::new(0), AtomicUsize::new(0)], [AtomicUsize::new(0), AtomicUsize::new(0)],
-    ];
-    pub(crate) static HINTED: [AtomicUsize; 4] = [AtomicUsize::new(0), AtomicUsize::new(0), AtomicUsize::new(0), AtomicUsize::new(0)];
+    ]);
+    vstatic!(pub(crate) HINTED: [AtomicUsize; 4] = [AtomicUsize::new(0), AtomicUsize::new(0), AtomicUsize::new(0), AtomicUsize::new(0)]);
 
     /// An arbitrary collector: its static answers per callsite and its hint are the given (symbolic) values.
     pub(crate) struct Stub { pub(crate) i: usize, pub(crate) answer: [u8; 2], pub(crate) hint: Option<LevelFilter> }
